@@ -239,8 +239,37 @@ func init() {
 		if x.IsConst() {
 			return ConstBV(new(big.Int).Abs(x.val), 64), true
 		}
+		if x.op == "bv2nat" && x.args[0].sort.W == 64 {
+			return x.args[0], true // Uint64(SetUint64(v)) = v
+		}
 		abs := Ite(intOp("<", BoolSort, x, ConstInt(big.NewInt(0))), intOp("-", IntSort, ConstInt(big.NewInt(0)), x), x)
 		return TS.intern(&Term{op: "int2bv", sort: BV(64), args: []*Term{abs}, p1: 64}), true
+	}
+	exact[bi+"SetUint64"] = func(e *Engine, st *State, fn *ssa.Function, args []Value, retTo *ssa.Call) (Value, bool) {
+		z, x := args[0].(Ptr), args[1].(*Term)
+		if z.Obj == 0 {
+			e.goPanic(st, "nil pointer dereference (big.Int.SetUint64)", nil)
+			return nil, true
+		}
+		if x.IsConst() {
+			st.setBig(z, ConstInt(new(big.Int).SetUint64(x.Uint64())))
+		} else {
+			st.setBig(z, mk("bv2nat", IntSort, x))
+		}
+		return z, true
+	}
+	exact[bi+"Int64"] = func(e *Engine, st *State, fn *ssa.Function, args []Value, retTo *ssa.Call) (Value, bool) {
+		x, ok := e.bigOf(st, args[0])
+		if !ok {
+			e.goPanic(st, "nil pointer dereference (big.Int.Int64)", nil)
+			return nil, true
+		}
+		if x.IsConst() {
+			return ConstBV(x.val, 64), true
+		}
+		// low 64 bits of the two's complement
+		m := intOp("+", IntSort, x, ConstInt(new(big.Int).Lsh(big.NewInt(1), 64)))
+		return TS.intern(&Term{op: "int2bv", sort: BV(64), args: []*Term{m}, p1: 64}), true
 	}
 	exact[bi+"String"] = func(e *Engine, st *State, fn *ssa.Function, args []Value, retTo *ssa.Call) (Value, bool) {
 		return mkString("<big.Int>"), true
